@@ -152,9 +152,11 @@ func (env *Env) index(b, i *Val) *Val {
 		idx := env.coerceInt(i, tInt)
 		return &Val{T: sx("select", sx("select", h, sx("sl_reg", b.T)), e.at(sx("sl_off", b.T), idx)), Ty: bt.Elem()}
 	case *types.Map:
+		// Go semantics: the zero value for a missing key (and for a nil map)
 		k := env.coerce(i, bt.Key())
-		mv, mvs, _, _ := e.mapComps(bt)
-		return &Val{T: sx("select", sx("select", e.heapGet(env.st, mv, mvs), b.T), k), Ty: bt.Elem()}
+		mv, mvs, mh, mhs := e.mapComps(bt)
+		has := and(not(eq(b.T, "0")), sx("select", sx("select", e.heapGet(env.st, mh, mhs), b.T), k))
+		return &Val{T: ite(has, sx("select", sx("select", e.heapGet(env.st, mv, mvs), b.T), k), e.zeroOf(bt.Elem())), Ty: bt.Elem()}
 	case *types.Array:
 		return &Val{T: sx("select", b.T, env.coerceInt(i, tInt)), Ty: bt.Elem()}
 	case *types.Basic:
@@ -551,7 +553,7 @@ func (env *Env) call(n *ast.CallExpr) *Val {
 			k := env.eval(n.Args[1])
 			mt := m.Ty.Underlying().(*types.Map)
 			_, _, mh, mhs := e.mapComps(mt)
-			return &Val{T: sx("select", sx("select", e.heapGet(env.st, mh, mhs), m.T), env.coerce(k, mt.Key())), Ty: tBool}
+			return &Val{T: and(not(eq(m.T, "0")), sx("select", sx("select", e.heapGet(env.st, mh, mhs), m.T), env.coerce(k, mt.Key()))), Ty: tBool}
 		case "typeis":
 			// typeis(x, T): dynamic type of interface value x is T
 			v := env.eval(n.Args[0])
@@ -563,6 +565,8 @@ func (env *Env) call(n *ast.CallExpr) *Val {
 			t := env.evalType(n.Args[1])
 			_, ub, _ := e.boxFuncs(t)
 			return &Val{T: sx(ub, v.T), Ty: t}
+		case "mhas", "mval":
+			return env.absMap(id.Name, n.Args)
 		case "decimal1", "decimal1val":
 			// decimal1(t, lo, hi): the float64 t is one of the values k/10,
 			// lo <= k <= hi, as strconv.ParseFloat returns them (correctly
@@ -722,9 +726,50 @@ func (env *Env) evalType(x ast.Expr) types.Type {
 		return types.NewPointer(env.evalType(n.X))
 	case *ast.ParenExpr:
 		return env.evalType(n.X)
+	case *ast.MapType:
+		return types.NewMap(env.evalType(n.Key), env.evalType(n.Value))
+	case *ast.ArrayType:
+		if n.Len == nil {
+			return types.NewSlice(env.evalType(n.Elt))
+		}
+	case *ast.IndexExpr:
+		// generic instantiation T[A]
+		if g, ok := env.evalType(n.X).(*types.Named); ok {
+			if inst, err := types.Instantiate(nil, g.Origin(), []types.Type{env.evalType(n.Index)}, false); err == nil {
+				return inst
+			}
+		}
 	}
-	specErr("unknown type %v", x)
+	specErr("unknown type %v", types.ExprString(x))
 	return nil
+}
+
+// absMap: an opaque object (e.g. a util.LockedMap) viewed as an abstract map;
+// mhas(o, k) and mval(o, k, V) are uninterpreted functions of the object
+// reference and the key (the object's state is not modelled beyond that).
+func (env *Env) absMap(name string, args []ast.Expr) *Val {
+	e := env.e
+	o := env.eval(args[0])
+	k := env.eval(args[1])
+	ks := e.sortOf(k.Ty)
+	if k.Ty == tUInt {
+		ks = "Int"
+	}
+	if name == "mhas" {
+		f := quoteSym("amh$" + ks)
+		e.declOnce("fun:"+f, fmt.Sprintf("(declare-fun %s (Int %s) Bool)", f, ks))
+		return &Val{T: sx(f, o.T, k.T), Ty: tBool}
+	}
+	var vt types.Type
+	if id, ok := args[2].(*ast.Ident); ok && env.names[id.Name] != nil {
+		vt = env.names[id.Name].Ty // mval(o, k, x): "of the type of x"
+	} else {
+		vt = env.evalType(args[2])
+	}
+	vs := e.sortOf(vt)
+	f := quoteSym("amv$" + ks + "$" + vs)
+	e.declOnce("fun:"+f, fmt.Sprintf("(declare-fun %s (Int %s) %s)", f, ks, vs))
+	return &Val{T: sx(f, o.T, k.T), Ty: vt}
 }
 
 func (e *Engine) lenOf(st *State, v *Val) string {
